@@ -136,6 +136,14 @@ CHECKS = {
           'KafkaTransportSink over simulated sockets; sizes, CRC32 and header fields verified by an independent parser; every response from '
           'small domains incl. int64 extremes decoded by the real decoder; 2-3 concurrent requests with replies in every order.',
           'bytes topics only', '3/C15'),
+  'C19': ('S', 'model_checking',
+          'stateless deviation-bounded exploration (<=3 quick / <=4 thorough) of the real ServerSet on the real kazoo watch recipes over an in-memory ZooKeeper with one-shot watches',
+          'Six (quick) / seven (thorough) mutation scripts (children created/deleted, path deleted and re-created with a re-used member '
+          'name, path missing at start, members present at start, raising consumer callbacks, a concurrent get_members reader) x every '
+          'interleaving of tree mutations with server-side handling of reads and delivery of responses / watch events up to d deviations; '
+          'at the end the consumer\'s join/leave log must reproduce the members present, alternate per member, and no exception may '
+          'escape into the watch machinery.',
+          'kazoo below get/exists/get_children and session loss not modelled; FIFO server->client channel', '3/C19'),
 }
 
 NOT_BUILT = 'check not built yet in this session (planned, see DESIGN.md section 3)'
